@@ -12,7 +12,7 @@ From Verif Require Import lib.Wire c15.Lts c15.Model c15.Spec c15.Proofs c15.Pro
   c15.Proofs_Valid c15.Proofs_WildOK c15.Proofs_Blk c15.Proofs_Obs c15.Proofs_Loc3 c15.Proofs_WSI c15.Proofs_TY c15.Proofs_Rule13 c15.Proofs_Reads
   c15.Proofs_Wire c15.Proofs_Disc c15.Proofs_Mon c15.Proofs_Cpl c15.Proofs_RCtx c15.Proofs_Prom c15.Proofs_R3 c15.Proofs_CEv c15.Proofs_ChI c15.Proofs_R5 c15.Proofs_Loc4 c15.Proofs_R4
   c15.Proofs_RegA c15.Proofs_RegB c15.Proofs_RegW c15.Proofs_RegRun c15.Proofs_MD c15.Proofs_RF c15.Proofs_R9 c15.Proofs_R7
-  c15.Proofs_NodeEv c15.Proofs_Keep c15.Proofs_EmitPc c15.Proofs_Last c15.Proofs_Old c15.Proofs_R6 c15.Proofs_Z c15.Proofs_R8 c15.Proofs_Head.
+  c15.Proofs_NodeEv c15.Proofs_Keep c15.Proofs_EmitPc c15.Proofs_Last c15.Proofs_Old c15.Proofs_R6 c15.Proofs_Z c15.Proofs_R8 c15.Proofs_Head c15.Proofs_Rej.
 Import ListNotations.
 
 (* the checked tie: a label trace accepted by conform_case's search is the
@@ -392,6 +392,54 @@ Theorem c15_monitor_accepts_model : forall c sched fin,
 Proof. exact monitor_accepts_model_l. Qed.
 Print Assumptions c15_monitor_accepts_model.
 
+(* ==== THE REJECTED SUBSCRIBE CALL (an entry of the type list is not a pointer / is nil) ========
+   In the model: the subscription wired to no type (rejected_sub c := styps c = Some []).
+   It is a NO-OP ON THE BUS STATE: each of its two steps (start; return of the error, code 1) leaves nodes,
+   bus map, wildcard node, emitters, emits and every other subscription untouched and changes nothing of
+   its own record but the program counter - from ANY state, reachable or not. *)
+Theorem c15_rejected_subscribe_is_noop : forall st s c l st',
+  nth_error (subs st) s = Some c -> rejected_sub c -> (spc c = S0 \/ spc c = SRet) ->
+  step st (TSub s) = Some (l, st') ->
+  nodes st' = nodes st /\ bmap st' = bmap st /\ wild st' = wild st /\ emitters st' = emitters st /\
+  emits st' = emits st /\ panicked st' = panicked st /\ blk st' = blk st /\
+  exists p, subs st' = upd (subs st) s (c_spc c p) /\
+    ((spc c = S0 /\ p = SRet /\ l = Some (LStart (TSub s))) \/ (spc c = SRet /\ p = SDone /\ l = Some (LRet (TSub s) 1%Z))).
+Proof. exact rejected_subscribe_noop. Qed.
+Print Assumptions c15_rejected_subscribe_is_noop.
+
+(* ... and it never waits for anything *)
+Theorem c15_rejected_subscribe_never_blocks : forall st s c,
+  nth_error (subs st) s = Some c -> rejected_sub c -> (spc c = S0 \/ spc c = SRet) ->
+  exists l st', step st (TSub s) = Some (l, st').
+Proof. exact rejected_subscribe_never_blocks. Qed.
+Print Assumptions c15_rejected_subscribe_never_blocks.
+
+(* an error return of Subscribe is seen in a model trace only for a rejected call (every schedule, any start state) *)
+Theorem c15_error_return_only_when_rejected : forall st sched s,
+  o_rejected (trace step st sched) s = true ->
+  exists c, nth_error (subs (run step st sched)) s = Some c /\ rejected_sub c.
+Proof. exact rej_run. Qed.
+Print Assumptions c15_error_return_only_when_rejected.
+
+(* the channel of a rejected call is listed nowhere, so nothing is ever sent to it *)
+Theorem c15_rejected_never_listed : forall st sched x c, wf_init st ->
+  nth_error (subs (run step st sched)) x = Some c -> rejected_sub c ->
+  (forall n nd, nth_error (nodes (run step st sched)) n = Some nd -> ~ In x (sinks nd)) /\
+  ~ In x (wsinks (wild (run step st sched))).
+Proof. exact rejected_never_listed. Qed.
+Print Assumptions c15_rejected_never_listed.
+
+(* "never deadlocks / an emit blocks [only] when a subscriber is slow", the Emit instance of rule 13 spelled out: at
+   every quiescent point of every run an Emit that has not returned has a subscription to blame that is
+   somebody's - its Subscribe call has begun and did not return an error (o_root demands negb (o_rejected ..)),
+   its Close has not started, its consumer is not receiving *)
+Theorem c15_stalled_emit_has_live_root : forall st sched k, wf_init st ->
+  quiescent step thrs stim (run step st sched) = true -> In (TEmit k) (o_ops (ocfg_of_state st)) ->
+  o_started (trace step st sched) (TEmit k) = true -> o_returned (trace step st sched) (TEmit k) = false ->
+  o_legit (ocfg_of_state st) (trace step st sched) (TEmit k) = true.
+Proof. exact stalled_emit_has_live_root. Qed.
+Print Assumptions c15_stalled_emit_has_live_root.
+
 (* ---- non-vacuity ------------------------------------------------------------- *)
 (* one stateful emitter of type 0, one typed subscription (buffer 1), events 100
    and 101: Emit(100); Subscribe; receive 100 (replay); Emit(101); receive 101;
@@ -453,3 +501,22 @@ Proof.
   intros s c H. destruct s as [|s]; [|vm_compute in H; destruct s; discriminate].
   vm_compute in H. inversion H; subst. intros _ R. vm_compute in R. discriminate.
 Qed.
+
+(* Emitter(T0); Subscribe([new(T0), 5], buffer 0) is rejected; Emit returns; Emitter.Close: a trace of the
+   LTS, accepted by the monitor *)
+Definition ex_rej_good : list Z := [1; 1; 1; 1; 0; 0; 4; 0; 1; 0; 0; 100; 9; 0; 0; 0; 0; 1; 0; 0; 0; 0; 3; 0; 0; 1; 3; 0; 1; 0; 2; 0; 0; 1; 2; 0; 0; 0; 1; 0; 0; 1; 1; 0; 0; 5; 0; 0; 0]%Z.
+Example ex_rej_good_ok : conform_case ex_rej_good = [] /\ monitor_case ex_rej_good = [].
+Proof. vm_compute. split; reflexivity. Qed.
+
+(* the same history on a bus where the rejected call left its sink behind: the Emit never returns although no
+   subscription exists, a second Emit is started behind it - not a trace of the LTS (the second start comes
+   in a state that cannot be quiescent: the first Emit can always go on), and the monitor reports rule 13
+   for the first Emit (2, 0) at that point *)
+Definition ex_rej_leak : list Z := [1; 1; 1; 2; 0; 0; 4; 0; 1; 0; 0; 100; 0; 101; 7; 0; 0; 0; 0; 1; 0; 0; 0; 0; 3; 0; 0; 1; 3; 0; 1; 0; 2; 0; 0; 0; 2; 1; 0; 5; 0; 0; 0]%Z.
+Example ex_rej_leak_rejected : conform_case ex_rej_leak = [901; 6]%Z /\ monitor_case ex_rej_leak = [902; 13; 5; 2; 0]%Z.
+Proof. vm_compute. split; reflexivity. Qed.
+
+(* a rejected call that answers "ok" is not a trace of the LTS *)
+Definition ex_rej_accepted : list Z := [1; 1; 1; 1; 0; 0; 4; 0; 1; 0; 0; 100; 3; 0; 3; 0; 0; 1; 3; 0; 0; 5; 0; 0; 0]%Z.
+Example ex_rej_accepted_rejected : conform_case ex_rej_accepted <> [].
+Proof. vm_compute. discriminate. Qed.
